@@ -141,3 +141,43 @@ func init() {
 		Old: "\t\t\ttpoolSpent[sci.Parent.ID] = true\n\t\t\tdelete(tpoolUtxos, sci.Parent.ID)\n",
 		New: "\t\t\ttpoolSpent[sci.Parent.ID] = true\n"})
 }
+
+func init() {
+	const syn, peer = "syncer/syncer.go", "syncer/peer.go"
+	mutant(Mutant{Rule: "C12.R1", Name: "resync-does-nothing", File: syn,
+		Old: "\tif p.Synced() {\n\t\tp.setSynced(false)\n\t\ts.log.Debug(\"resync triggered\"",
+		New: "\tif p.Synced() {\n\t\ts.log.Debug(\"resync triggered\""})
+	mutant(Mutant{Rule: "C12.R1", Name: "detached-header-ignored", File: peer,
+		Old: "\t\t\ts.resync(origin, \"peer relayed a v2 header that does not attach to our tip\")\n\t\t\treturn nil",
+		New: "\t\t\treturn nil"})
+	mutant(Mutant{Rule: "C12.R1", Name: "unknown-parent-outline-ignored", File: peer,
+		Old: "\t\t\ts.resync(origin, fmt.Sprintf(\"peer relayed a v2 outline with unknown parent (%v)\", r.Block.ParentID))\n\t\t\treturn nil",
+		New: "\t\t\treturn nil"})
+	mutant(Mutant{Rule: "C12.R2", Name: "synced-with-headers-remaining", File: syn,
+		Old: "\t\t\t\t} else if r.remaining == 0 {\n\t\t\t\t\t// peer sent all their headers",
+		New: "\t\t\t\t} else {\n\t\t\t\t\t// peer sent all their headers"})
+	mutant(Mutant{Rule: "C12.R2", Name: "synced-after-failed-fetch", File: syn,
+		Old: "\t\t\t\t\ts.log.Debug(\"sync failed\", zap.Stringer(\"peer\", r.peer), zap.Error(err))\n",
+		New: "\t\t\t\t\ts.log.Debug(\"sync failed\", zap.Stringer(\"peer\", r.peer), zap.Error(err))\n\t\t\t\t\tif r.remaining == 0 {\n\t\t\t\t\t\tr.peer.setSynced(true)\n\t\t\t\t\t}\n"})
+	mutant(Mutant{Rule: "C12.R3", Name: "only-outbound-peers-asked", File: syn,
+		Old: "\t\t\tif p.Err() == nil && !p.Synced() {\n\t\t\t\tpeers = append(peers, p)",
+		New: "\t\t\tif p.Err() == nil && !p.Synced() && !p.Inbound {\n\t\t\t\tpeers = append(peers, p)"})
+	mutant(Mutant{Rule: "C12.R4", Name: "ancestor-search-gives-up", File: syn,
+		Old: "\t\t\t\t\t\t\tcontinue // probably \"index is not on our best chain\"\n",
+		New: "\t\t\t\t\t\t\treturn consensus.State{}, nil, 0, err\n"})
+	mutant(Mutant{Rule: "C12.R5", Name: "completed-sync-not-announced", File: syn,
+		Old: "\t\t\t\t\tr.peer.setSynced(true)\n\t\t\t\t\tgo s.relayV2Header(r.headers[len(r.headers)-1], r.peer)\n",
+		New: "\t\t\t\t\tr.peer.setSynced(true)\n"})
+	mutant(Mutant{Rule: "C12.R5", Name: "added-outline-not-relayed", File: peer,
+		Old: "\t\tr.Block.RemoveTransactions(txns, v2txns)\n\t\tgo s.relayV2BlockOutline(r.Block, origin) // non-blocking\n",
+		New: "\t\tr.Block.RemoveTransactions(txns, v2txns)\n"})
+	mutant(Mutant{Rule: "C12.R5", Name: "header-relay-only-when-synced", File: peer,
+		Old: "\t\tgo s.relayV2Header(r.Header, origin) // non-blocking\n",
+		New: "\t\tif origin.Synced() {\n\t\t\tgo s.relayV2Header(r.Header, origin) // non-blocking\n\t\t}\n"})
+}
+
+func init() {
+	mutant(Mutant{Rule: "C12.R6", Name: "failed-txn-fetch-returns-error", File: "syncer/peer.go",
+		Old: "\t\t\t\ts.resync(origin, fmt.Sprintf(\"failed to retrieve missing v2 transactions for block %v from peer %v: %v\", bid, origin, err))\n\t\t\t\treturn nil",
+		New: "\t\t\t\treturn fmt.Errorf(\"failed to retrieve missing v2 transactions for block %v from peer %v: %w\", bid, origin, err)"})
+}
